@@ -210,7 +210,7 @@ CHECK = {
         "name": "srv", "impl_bin": "impl_c10", "extract": "Extract/ExC10.v", "driver": "run_c10.ml",
         "gen": gen, "nontrivial": nontrivial, "classify": classify, "oracle_ok": oracle_ok,
         "exhaustive": {"quick": False, "thorough": False},
-        "rule": ("seeded requests to the real Server::handle_message (one zone, TCP and UDP): random key sets (0-3 keys, "
+        "rule": ("seeded requests to the real Server::handle_message (one zone, TCP and UDP): [configured key names also with upper-case letters; times signed also equal to the clock modulo 2^32] random key sets (0-3 keys, "
                  "HMAC-SHA1/SHA256, secrets of 1..100 octets, random key names), requests built and signed per RFC 8945 by "
                  "the Python signer's digest and the runner's own SHA-1/SHA-256/HMAC at run time (time signed = server "
                  "clock + offset; clock sampled before/after, case redone on a second boundary): valid, wrong signing "
